@@ -92,18 +92,26 @@ def build(case):
 def fingerprint_of(result, spec):
     """What was perturbed in this sample, as carried by the returned Result."""
     parts = []
+    interior = 0  # uncertain quantities whose sampled value is visible unclipped (two draws clipped to the same limit look identical)
     datapars = {p["name"] for p in spec["pars"] if p["db"] and not p.get("function")}
     for pop in result.model.pops:
         for par in pop.pars:
             if par.name in datapars:
-                parts.append((pop.name, par.name, np.asarray(par.vals, dtype=float)[:1].tobytes().hex()))
+                v0 = np.asarray(par.vals, dtype=float)[:1]
+                parts.append((pop.name, par.name, v0.tobytes().hex()))
+                sig = spec["values"].get(par.name, {}).get(pop.name, {}).get("sigma") or 0
+                lim = par.limits if par.limits is not None else ()
+                if sig > 0 and v0.size and not any(float(v0[0]) == float(l) for l in lim if l is not None):
+                    interior += 1
     ps = result.model.progset
     if ps is not None:
         for name, prog in ps.programs.items():
             parts.append(("spend", name, repr(prog.spend_data.assumption), repr(prog.spend_data.vals)))
+            interior += 1 if (prog.spend_data.sigma or 0) > 0 else 0
         for key, co in ps.covouts.items():
             parts.append(("covout", str(key), repr(sorted(co.progs.items())), repr(co.imp_interaction)))
-    return digest._h(repr(parts).encode())
+            interior += 1 if (co.sigma or 0) > 0 else 0
+    return "%s/%d" % (digest._h(repr(parts).encode()), interior)
 
 
 _CASE = {}
@@ -186,6 +194,14 @@ def run_case(case):
     P, pset, instr = build(case)
     parset = P.parsets[0]
     positive = not case["zero_uncertainty"]
+    if positive:
+        # the fingerprint sees data parameters and programme data: is any of them given a positive uncertainty?
+        datapars = {p["name"] for p in spec["pars"] if p["db"] and not p.get("function")}
+        any_par = any((v.get("sigma") or 0) > 0 for name, popvals in spec["values"].items() if name in datapars for v in popvals.values())
+        any_prog = pset is not None and (any((prog.spend_data.sigma or 0) > 0 for prog in pset.programs.values()) or any((co.sigma or 0) > 0 for co in pset.covouts.values()))
+        if not (any_par or any_prog):
+            R.count("model_without_any_uncertain_quantity")
+            return {"records": R.records(), "stats": R.stats, "nontrivial": False}
     R.count("mode[%s]" % case["mode"])
     # ---- every program book can be sampled; sources unchanged --------------------------------------------------
     before = {"parset": digest.snapshot(parset), "progset": digest.snapshot(pset)}
@@ -282,6 +298,11 @@ def run_case(case):
         for i, fp in enumerate(fps):
             groups.setdefault(fp, []).append(i)
         same = [g for g in groups.values() if len(g) > 1]
+        clipped = [g for g in same if str(fps[g[0]]).endswith("/0")]
+        same = [g for g in same if g not in clipped]
+        if clipped:
+            R.count("duplicates_with_every_uncertain_value_at_a_limit", len(clipped))
+    if dup and same:
         across = any(len({pids[i] for i in g}) > 1 for g in same)
         R.bad("independent-draws", "C17:duplicate-samples[%s,%s]" % (case["mode"], "across-workers" if across else "within-worker"), {"n_samples": n, "distinct": len(set(fps)), "workers": case["workers"], "preseed": case["preseed"], "duplicate_groups": same[:5], "samples_per_process": sched})
     else:
